@@ -31,6 +31,8 @@ pub enum Src {
     IterUnknown,
     /// boxed by-value iterator that never ends; `len` is ignored
     IterEndless,
+    /// `positions.par().copied().map(make)`: a slice of plain integers by reference, copied, then mapped to tokens
+    SliceCopied,
     /// std collections by value (`into_par()`): ConIterOfIter over the collection's IntoIter
     Deque,
     List,
@@ -48,7 +50,8 @@ pub enum Src {
 
 impl Src {
     pub const ALL_FINITE: [Src; 5] = [Src::Vec, Src::SliceCloned, Src::Range, Src::IterExact, Src::IterUnknown];
-    pub const COLLECTIONS: [Src; 10] = [
+    pub const COLLECTIONS: [Src; 11] = [
+        Src::SliceCopied,
         Src::Deque,
         Src::List,
         Src::BSet,
@@ -63,6 +66,7 @@ impl Src {
     pub fn is_collection(&self) -> bool {
         Src::COLLECTIONS.contains(self)
     }
+    /// (the group also holds `SliceCopied`: like the std collections it is instantiated for short chains only)
     /// by-reference std collection: the items are cloned by the first stage
     pub fn is_collection_ref(&self) -> bool {
         matches!(self, Src::DequeRef | Src::ListRef | Src::BSetRef | Src::HeapRef | Src::BMapRef)
@@ -75,6 +79,7 @@ impl Src {
             Src::IterExact => "iterexact",
             Src::IterUnknown => "iterunknown",
             Src::IterEndless => "iterendless",
+            Src::SliceCopied => "slicecopied",
             Src::Deque => "deque",
             Src::List => "list",
             Src::BSet => "bset",
@@ -95,6 +100,7 @@ impl Src {
             "iterexact" => Src::IterExact,
             "iterunknown" => Src::IterUnknown,
             "iterendless" => Src::IterEndless,
+            "slicecopied" => Src::SliceCopied,
             "deque" => Src::Deque,
             "list" => Src::List,
             "bset" => Src::BSet,
@@ -120,7 +126,7 @@ impl Src {
     }
     /// the source goes through a map stage (stage 0) before the chain
     pub fn has_adaptor(&self) -> bool {
-        matches!(self, Src::SliceCloned | Src::Range | Src::BMap) || self.is_collection_ref()
+        matches!(self, Src::SliceCloned | Src::Range | Src::BMap | Src::SliceCopied) || self.is_collection_ref()
     }
     /// the first stage clones the element (Clone events instead of stage-0 calls)
     pub fn clones(&self) -> bool {
